@@ -24,7 +24,7 @@ import (
 
 var errInjected = errors.New("injected I/O fault")
 
-// injectedErr: the error an injected fault returns.  Kind "p" / "x" are errors of the permission / already-exists
+// injectedErr: the error an injected fault returns.  Kind "p" / "x" / "d" / "a" are errors of the permission / already-exists / not-a-directory / try-again
 // class as the os package reports them (a *PathError around an errno), so that code which tolerates more than
 // "does not exist" (os.IsPermission, os.IsExist, errors.Is(err, fs.ErrPermission)) is exposed; every other kind is
 // an opaque error.
@@ -34,6 +34,10 @@ func injectedErr(kind, op, path string) error {
 		return &os.PathError{Op: op, Path: path, Err: syscall.EACCES}
 	case "x":
 		return &os.PathError{Op: op, Path: path, Err: syscall.EEXIST}
+	case "d":
+		return &os.PathError{Op: op, Path: path, Err: syscall.ENOTDIR}
+	case "a":
+		return &os.PathError{Op: op, Path: path, Err: syscall.EAGAIN}
 	}
 	return errInjected
 }
@@ -146,7 +150,7 @@ func md5hex(b []byte) string {
 func (fs *faultFS) WriteFile(path string, data []byte) error {
 	if f, ok := fs.tick("W"); ok {
 		fs.trace = append(fs.trace, "W:"+hx(path)+":"+md5hex(data)+":0")
-		if f == "p" || f == "x" {
+		if f == "p" || f == "x" || f == "d" || f == "a" {
 			return injectedErr(f, "open", path)
 		}
 		if f != "n" {
@@ -213,7 +217,7 @@ func errClass(err error, isNotEnough func(error) bool) string {
 	switch {
 	case err == nil:
 		return "ok"
-	case errors.Is(err, errInjected), errors.Is(err, syscall.EACCES), errors.Is(err, syscall.EEXIST):
+	case errors.Is(err, errInjected), errors.Is(err, syscall.EACCES), errors.Is(err, syscall.EEXIST), errors.Is(err, syscall.ENOTDIR), errors.Is(err, syscall.EAGAIN):
 		return "err:io"
 	case errors.Is(err, errIsDir):
 		return "err:io"
